@@ -73,6 +73,11 @@ fn c06_value(t: &mut Tctx, shape: &Shape, val: &Val, light: bool) -> Option<Vec<
     if zero_free {
         t.st.count("zero_free_messages");
     }
+    if t.st.want_sample() && n >= 2 && n <= 12 && t.rng.chance(1, 32) {
+        let mut j = J::obj();
+        j.set("message", J::s(hex(&plain))).set("frame", J::s(hex(&frame))).set("reference_cobs", J::s(hex(&want)));
+        t.st.sample(j);
+    }
     if n >= 254 {
         t.st.count("messages_with_full_block");
     }
@@ -238,7 +243,7 @@ pub fn run_c06(cfg: &Cfg) -> Report {
         if t.cfg.tier == Tier::Tiny {
             lens = vec![253, 254, 255, 508];
         }
-        let reps = t.cfg.scale(1, 6, 60);
+        let reps = t.cfg.scale(1, 40, 400);
         let mut pool: Vec<(Shape, Val, Vec<u8>)> = Vec::new();
         let mut i = 0u64;
         for _ in 0..reps {
@@ -282,7 +287,7 @@ pub fn run_c06(cfg: &Cfg) -> Report {
                 }
             }
         }
-        let nrand = t.cfg.scale(5, 400, 20_000);
+        let nrand = t.cfg.scale(5, 4_000, 80_000);
         for _ in 0..nrand {
             if t.cfg.expired() {
                 break;
@@ -408,6 +413,20 @@ pub fn c07_case(t: &mut Tctx, gb: &mut GuardBuf, shape: &Shape, text: &str, sfp:
         });
         t.st.count("guarded_cobs_decodes");
         let after: Vec<u8> = unsafe { std::slice::from_raw_parts(base as *const u8, total) }.to_vec();
+        if at_tail && t.st.want_sample() && input.len() >= 2 && input.len() <= 16 && t.rng.chance(1, 128) {
+            let mut j = J::obj();
+            j.set("target", J::s(text)).set("input", J::s(hex(input))).set("class", J::s(class));
+            j.set("reference_cobs", J::s(match &reference {
+                CobsRef::Bad => "ill-formed (code byte points past the frame)".to_string(),
+                CobsRef::Ok(p) => format!("payload {}", hex(p)),
+            }));
+            j.set("postcard", J::s(match &r {
+                Ok(Ok((v, rp, rl))) => format!("Ok({}) remainder at {} len {}", v.show(), rp - base, rl),
+                Ok(Err(e)) => format!("Err({})", err_label(e)),
+                Err(_) => "panic".to_string(),
+            }));
+            t.st.sample(j);
+        }
         match (&r, &reference, &plain_outcome) {
             (Err(p), _, _) => {
                 t.st.violation("C07:panic", format!("take_from_bytes_cobs panicked: {} (shape {}, input {})", p, text, hexs(input)), rpv());
@@ -588,7 +607,7 @@ pub fn run_c07(cfg: &Cfg) -> Report {
     // lane 2: valid frames with every single-byte corruption and truncation; random bytes; random shapes
     let s = parallel(cfg, 2, |t| {
         let mut gb = GuardBuf::new(4);
-        let n = t.cfg.scale(4, 500, 20_000);
+        let n = t.cfg.scale(4, 3_000, 60_000);
         for _ in 0..n {
             if t.cfg.expired() {
                 break;
